@@ -26,7 +26,9 @@ ValidStartCells(r) == StartCells(r) \ r.obst
 ReachAny(r) == UNION {Reach(r.W, r.H, r.obst, c) : c \in StartCells(r)}
 
 (* Every clause has a name so that a rejected report says which clause failed. *)
-SolClauses == {"nonempty", "startsAtStart", "inBounds", "verticesValid", "invalidRun",
+(* ("verticesValid" is recorded by the harness but is not a clause: an interior vertex may sit inside an   *)
+(* invalid stretch that is shorter than the resolution allows - the property bounds the stretch)         *)
+SolClauses == {"nonempty", "startsAtStart", "inBounds", "invalidRun",
                "pairsRecheck", "cellWalk", "exactEndsInGoal", "approxDifference", "exactEndsInGoalCell"}
 
 (* every clause but the first presupposes a non-empty path, so an empty path fails exactly "nonempty" *)
